@@ -59,6 +59,7 @@ fn main() {
     let progs2 = programs(2, &base);
     let progs1 = programs(1, &alpha);
     let mut drivers = vec![];
+    let mut three_inside = vec![];
     let preludes: Vec<Vec<CellOp>> = vec![vec![], vec![CellOp::Add(4096.0)], vec![CellOp::Add(4096.0), CellOp::Reset]];
     for &f in &flavours {
         // all unordered pairs of programs of length <= 2
@@ -85,6 +86,15 @@ fn main() {
                 drivers.push(CellDriver { cloned: drivers.len() % 2 == 1, flavour: f, prelude: vec![], programs: instantiate(&[vec![CellOp::Add(1.0)], vec![CellOp::Add(1.0)], vec![CellOp::RemoveOther, third]]) });
             }
         }
+        // contention: one update against a run of five by another thread that then reads (an update that gives up or
+        // changes strategy after losing several races), and three updaters inside the cell at once
+        {
+            let a = CellOp::Add(1.0);
+            drivers.push(CellDriver { cloned: drivers.len() % 2 == 1, flavour: f, prelude: vec![], programs: instantiate(&[vec![a], vec![a, a, a, a, a, CellOp::Get]]) });
+            if thorough || f == Flavour::Counter {
+                three_inside.push(CellDriver { cloned: f != Flavour::Counter, flavour: f, prelude: vec![CellOp::Add(4096.0)], programs: instantiate(&[vec![a, CellOp::Get], vec![a], vec![a, a]]) });
+            }
+        }
         if thorough {
             // triples: one thread with 2 operations, two threads with 1
             // (restricted to the first four letters of the alphabet to keep the tier within minutes)
@@ -101,7 +111,7 @@ fn main() {
             }
         }
     }
-    let ndrivers = drivers.len();
+    let ndrivers = drivers.len() + three_inside.len();
     rep.rule = format!(
         "stateless exploration (vsched, Mode U = unbounded with sleep sets; a driver exceeding the execution cap is re-run preemption-bounded) of all thread interleavings at atomic/lock operations of: for each of 4 counter flavours (Counter, IntCounter, children of CounterVec/IntCounterVec fetched by every call), all unordered pairs of programs of length 1..2 over {:?} and all unordered triples of 1-operation programs over {:?}{}; start states fresh / pre-incremented / pre-incremented-then-reset; every update carries a distinct power of two; half of the drivers share one handle by reference, the other half give every thread its own clone; oracle = linearizability (Wing-Gong) of the recorded call/return history incl. quiescent get() and collect() against a sequential counter. distinct = distinct (flavour, values read, real-time relation) outcomes",
         base, alpha, if thorough { "; plus triples with one 2-operation thread" } else { "" }
@@ -116,6 +126,12 @@ fn main() {
     let mut results = explore_many(small, Mode::U, cap, 3, 16, cl);
     SPURIOUS_BUDGET.store(0, std::sync::atomic::Ordering::Relaxed);
     results.extend(explore_many(large, Mode::U, cap, 3, 16, cl));
+    // the three-updaters-inside drivers are the largest single explorations: 16 workers on each in turn
+    for d in three_inside {
+        let name = verif_harness::vsched::Driver::name(&d);
+        let r = verif_harness::vsched::explore(d, Mode::U, 2_000_000, 16);
+        results.push((name, Mode::U, r));
+    }
     let summary = fold_results(&mut rep, results);
     rep.extra.insert("modes".into(), summary);
     rep.assumptions = vec![
